@@ -877,6 +877,12 @@ def scen_c14(g, fg, rng, idx, thorough):
         removed = []
     w.set_up(removed)
     w.ev_layout()
+    ops_c14(w, rng)
+    w.set_up([])
+    return w.trace("c14")
+
+
+def ops_c14(w, rng):
     kind = rng.choice(["w", "rw"])
     w.op_check(kind, False)
     w.op_check(rng.choice(["w", "rw"]), True)
@@ -888,8 +894,39 @@ def scen_c14(g, fg, rng, idx, thorough):
             cr2 = w.op_check(kind, False)
             if cr2 is not None:
                 w.op_repair(kind, True, cr2)
+
+
+def scen_gen(g, fg, rng, case, family):
+    """a layout enumerated by spec/mutable/GenMutableLayouts.tla: server s<i> = i-th server of the permuted list,
+    version 2 = newest, version 1 = older; the class of a slot is realised by a random tamper kind of that class"""
+    w = new_world(g, fg, rng, 2)
+    w.wipe()
+    for pos in sorted(case["L"]):
+        s = w.order[int(pos[1:])]
+        for shs in sorted(case["L"][pos]):
+            x = case["L"][pos][shs]
+            sh = int(shs)
+            if x["cls"] == "absent":
+                continue
+            if x["cls"] == "intact":
+                w.put(s, sh, x["v"], how="gen")
+            else:
+                t = tampered(w, x["v"], sh, [k for k, c in TAMPERS.items() if c == x["cls"]], rng)
+                assert t, (x, w.fmt)
+                w.put(s, sh, x["v"], t[1], t[0], "gen:" + t[2])
     w.set_up([])
-    return w.trace("c14")
+    w.ev_layout()
+    if family == "C10":
+        w.op_read("ro", "fifo")
+        w.op_read(rng.choice(["rw", "w"]), random.Random(rng.randrange(10 ** 6)))
+    elif family == "C11":
+        w.op_read("ro", random.Random(rng.randrange(10 ** 6)))
+        w.op_publish("rw", w.new_content())
+        w.ev_layout()
+        w.op_read("ro", "fifo")
+    else:
+        ops_c14(w, rng)
+    return w.trace("gen")
 
 
 SCENS = {"C10": scen_c10, "C11": scen_c11, "C14": scen_c14}
@@ -912,6 +949,12 @@ def main():
     work = os.path.join(os.getcwd(), "mutread_%s_%d" % (a.family, os.getpid()))
     traces = []
     grids = {}
+    cases = None
+    if a.inp:
+        with open(a.inp) as f:
+            cases = json.load(f)
+        a.n = len(cases)
+        a.servers = 4
     for i in range(a.n):
         rng = random.Random(rng0.randrange(10 ** 9))
         ns = a.servers or (rng.choice([4, 4, 5]) if a.family != "C11" else rng.choice([5, 6, 6, 7]))
@@ -925,7 +968,10 @@ def main():
         g.policy = "fifo"
         g.calllog = []
         g.log_calls = False
-        tr = SCENS[a.family](g, fg, rng, i, thorough)
+        if cases is not None:
+            tr = scen_gen(g, fg, rng, cases[i], a.family)
+        else:
+            tr = SCENS[a.family](g, fg, rng, i, thorough)
         tr["consts"]["idx"] = i
         traces.append(tr)
         # forget this file
